@@ -21,7 +21,8 @@ def check_call(sizer, dh, equity, lev, rate, ws, ps):
     n = len(ws)
     assets = ASSETS[:n]
     dh.ask = {a: float(fw(p)) for a, p in zip(assets, ps)}
-    weights = {a: float(fw(w)) for a, w in zip(assets, ws)}
+    # whole-number weights are passed as python ints, the others as floats (both are legal weight types)
+    weights = {a: (int(fw(w)) if fw(w).denominator == 1 else float(fw(w))) for a, w in zip(assets, ws)}
     case = {'kind': 'size', 'equity': str(equity), 'leverage': lev, 'rate': rate, 'weights': list(ws), 'asks': list(ps)}
     try:
         got = sizer(DT, dict(weights))
@@ -84,6 +85,10 @@ def group(item):
     ps2 = tuple(ASKS[(ASKS.index(x) + 1) % len(ASKS)] for x in ps)
     plan = [(equity, ps, ws) for ws in itertools.product(WEIGHTS, repeat=len(ps))]
     plan += [(equity, ps2, ws) for ws in itertools.product(WEIGHTS, repeat=len(ps))]
+    # gross exposure within 1e-5 of one / of the leverage but not equal to it
+    near = {1: [('1.000004',), ('-0.999996',)], 2: [('0.600004', '-0.400003'), ('-0.599996', '0.399997')],
+            3: [('0.400003', '-0.350003', '0.250003')]}
+    plan += [(equity, ps, ws) for ws in near[len(ps)]]
     if len(ps) > 1:
         plan += [(equity, ps[:-1], ws) for ws in itertools.product(WEIGHTS[2:6], repeat=len(ps) - 1)]
     half = fw(equity) / 2
